@@ -1,7 +1,7 @@
 // U-sched: the scheduler core under contract (C01-C06, C08, C15, C16, C19 function-level parts).
 //@@ unit U-sched
 //@@ default props=C02 rewrites=R1,R2,R3,R5,R13 ghost="Tracked(h): Tracked<&mut Heap>" ghostarg="Tracked(h)" loopinv="h.wf(), fwd(*old(h), *h)," bodyprelude="broadcast use {lemma_fwd_refl, lemma_fwd_trans};"
-//@@ heapmethods state set_state set_err err children children_in next parent siblings task set_task sched_task emit_task_event emit_proc_event eval init run review error exec is_ready emit_task emit_error create_task push root set_data flag set_flag prev start_time
+//@@ heapmethods state set_state set_err err children children_in next parent siblings task set_task sched_task emit_task_event emit_proc_event eval init run review error exec is_ready emit_task emit_error create_task push root set_data flag set_flag prev start_time update_data outputs is_event_processed prepare is_auto_complete
 use vstd::prelude::*;
 use std::sync::Arc;
 verus! {
@@ -24,6 +24,16 @@ impl Task {
     { unimplemented!() }
 }
 impl Context {
+    #[verifier::external_body]
+    pub fn emit_error(&self, Tracked(h): Tracked<&mut Heap>) -> (r: Result<()>)
+        requires old(h).wf()
+        ensures final(h).wf(), fwd(*old(h), *final(h)),
+    { unimplemented!() }
+    #[verifier::external_body]
+    pub fn emit_task(&self, task: &Arc<Task>, Tracked(h): Tracked<&mut Heap>) -> (r: Result<()>)
+        requires old(h).wf(), wf_task(*old(h), **task)
+        ensures final(h).wf(), fwd(*old(h), *final(h)), final(h).cur == old(h).cur,
+    { unimplemented!() }
     #[verifier::external_body]
     pub fn sched_task(&self, node: &Arc<Node>, Tracked(h): Tracked<&mut Heap>)
         requires old(h).wf()
@@ -48,6 +58,11 @@ pub trait ActTask: Sized {
     fn review(&self, ctx: &Context, Tracked(h): Tracked<&mut Heap>) -> (ret: Result<bool>)
         requires old(h).wf(), self.fits(*old(h))
         ensures final(h).wf(), fwd(*old(h), *final(h));
+//@@ extract file=acts/src/scheduler/mod.rs in="trait ActTask" item="fn error" name=ActTask::error props=C02,C06
+//@@ spec
+        requires old(h).wf(), self.fits(*old(h))
+        ensures final(h).wf(), fwd(*old(h), *final(h))
+//@@ end
 }
 
 impl ActTask for Workflow {
@@ -100,6 +115,52 @@ impl ActTask for Step {
         invariant
             //# count-bound
             count <= __i1, tasks_ok(*h, __v1@),
+//@@ end
+}
+
+impl ActTask for Act {
+    open spec fn fits(&self, h: Heap) -> bool { h.tasks[h.cur].node.content == NodeContent::Act(*self) }
+    #[verifier::external_body]
+    fn init(&self, ctx: &Context, Tracked(h): Tracked<&mut Heap>) -> (ret: Result<()>) { unimplemented!() }
+    #[verifier::external_body]
+    fn run(&self, ctx: &Context, Tracked(h): Tracked<&mut Heap>) -> (ret: Result<()>) { unimplemented!() }
+//@@ extract file=acts/src/scheduler/process/task/act.rs in="impl ActTask for Act" item="fn next" name=Act::next props=C02,C03,C04,C01,C15
+//@@ opt traitpost
+//@@ loop 1
+        invariant
+            //# count-bound
+            count <= __i1, tasks_ok(*h, __v1@),
+//@@ end
+//@@ extract file=acts/src/scheduler/process/task/act.rs in="impl ActTask for Act" item="fn review" name=Act::review props=C02,C03,C04
+//@@ opt traitpost
+//@@ loop 1
+        invariant
+            //# count-bound
+            count <= __i1, tasks_ok(*h, __v1@),
+            //# review-reads-only
+            *h == *old(h) && task.id@ == h.cur && h.st(h.cur) is Running,
+//@@ end
+}
+
+// the dispatcher: task.rs `impl ActTask for Arc<Task>`
+impl ActTask for Arc<Task> {
+    open spec fn fits(&self, h: Heap) -> bool { wf_task(h, **self) }
+//@@ extract file=acts/src/scheduler/process/task.rs in="impl ActTask for Arc<Task>" item="fn init" name=Arc<Task>::init props=C02,C03,C08
+//@@ opt traitpost
+//@@ end
+//@@ extract file=acts/src/scheduler/process/task.rs in="impl ActTask for Arc<Task>" item="fn run" name=Arc<Task>::run props=C02,C04
+//@@ opt traitpost
+//@@ end
+//@@ extract file=acts/src/scheduler/process/task.rs in="impl ActTask for Arc<Task>" item="fn next" name=Arc<Task>::next props=C02,C01,C03
+//@@ opt traitpost attr="#[verifier::exec_allows_no_decreases_clause]"
+//@@ rw R7 `& parent . clone ( )` => `&parent`
+//@@ end
+//@@ extract file=acts/src/scheduler/process/task.rs in="impl ActTask for Arc<Task>" item="fn review" name=Arc<Task>::review props=C02,C03
+//@@ opt traitpost attr="#[verifier::exec_allows_no_decreases_clause]"
+//@@ rw R7 `& parent . clone ( )` => `&parent`
+//@@ end
+//@@ extract file=acts/src/scheduler/process/task.rs in="impl ActTask for Arc<Task>" item="fn error" name=Arc<Task>::error props=C02,C06
+//@@ opt traitpost
 //@@ end
 }
 } // verus!
